@@ -263,6 +263,35 @@ fn main() {
         if o.status != 0 || !o.stdout_str().contains("zerv") { ctx.violation("llm_help_failed", "--llm-help".into(), json!({"kind":"proc"}), format!("exit {}", o.status)); }
     }
 
+    // every environment variable zerv itself reads (config.rs: PAGER, RUST_LOG, ZERV_*) and the usual terminal variables, each
+    // with blank, white-space-only, unusable and option-carrying values, under every help-like invocation (the only place
+    // PAGER is consulted) and two ordinary ones: never a panic or a signal, whatever the value
+    {
+        let empty = gitx::scratch_root().join("emptybin");
+        let _ = std::fs::create_dir_all(&empty);
+        let long = "x".repeat(5000);
+        let values: Vec<&str> = vec!["", " ", "\t", "  \t ", "nonexistent-pager", "cat", "cat -u", "/bin/false", "/bin/true", "less -FRX", "'", ";", "-", "--", "\u{a0}", "é", "0", "1", "true", "false", "TRUE", "off", "trace", "zerv=", "=", ",", "[", long.as_str()];
+        let vars = ["PAGER", "RUST_LOG", "ZERV_FORCE_RUST_LOG_OFF", "ZERV_TEST_NATIVE_GIT", "ZERV_TEST_DOCKER", "MANPAGER", "LESS", "TERM", "COLUMNS", "LINES", "NO_COLOR", "CLICOLOR_FORCE", "SHELL", "LANG"];
+        let argvs = [a(&["--llm-help"]), a(&["--help"]), a(&["-h"]), a(&["-V"]), a(&["help"]), a(&["help", "flow"]), a(&["version", "--help"]), a(&["--llm-help", "-v"]), a(&["version", "--source", "none", "--tag-version", "1.2.3"]), a(&["check", "1.2.3"])];
+        let mut jobs: Vec<(&str, &str, &Vec<String>, bool)> = vec![];
+        for k in vars { for v in &values { for av in &argvs { for nopath in [false, true] {
+            if !nopath || (k == "PAGER" && av[0] == "--llm-help") { jobs.push((k, *v, av, nopath)); }
+        }}}}
+        let st = jobs.par_iter().map(|(k, v, av, nopath)| {
+            let mut st = Stats::default();
+            st.inc("process_runs"); st.inc("environment_value_runs");
+            let mut env: Vec<(&str, &str)> = vec![(*k, *v)];
+            if *nopath { env.push(("PATH", empty.to_str().unwrap())); }
+            let o = zv::run_bin(av, None, &env, None);
+            if o.status == 101 || o.status < 0 || o.stderr_str().contains("panicked at") {
+                let site = o.stderr_str().lines().find(|l| l.contains("panicked at")).unwrap_or("").to_string();
+                ctx.violation("process_panic_or_abort", format!("[{k}={:?}{}] {}", truncate(v, 40), if *nopath { " PATH=<empty dir>" } else { "" }, av.join(" ")), json!({"kind":"proc","args":av,"env":[format!("{k}={v}")]}), format!("exit {} {}", o.status, truncate(&site, 200)));
+            }
+            st
+        }).reduce(Stats::default, Stats::merge);
+        s_h = s_h.merge(st);
+    }
+
     // (d) size-bounded inputs through the real binary only (a stack overflow would kill an in-process driver): nesting
     // depth / chain length n, iterated 8, 64, 512, 4096, 16384, for every recursive input language zerv accepts
     let s_d = {
